@@ -140,7 +140,7 @@ func hasNonFinite(v Val) bool {
 }
 
 func checkC19(c *Ctx) {
-	c.rule = "(1) generate: random nested dictionaries (texts over quotes, backslashes, control characters, astral code points; doubles incl. -0, subnormals, 2^53+1, 1.8e308; booleans, 空, empty lists/dicts) enter as input variables; the text of 生成JSON is parsed by Python json.loads (strict constants) and compared structurally; non-finite numbers must give a catchable exception, and so must objects / types / methods / exceptions anywhere in the structure (never null); (2) parse: documents produced by Python json.dumps (random separators, indent, ensure_ascii) must parse to the generator's value with keys in document order; (3) in-language round trip (解析JSON：（生成JSON：D）) 为 D; (5) documents nested 100 … 200000 deep (thorough: up to 6 million) as objects / arrays / both / unclosed: parsed or refused with an exception, never a dead process; (4) every single-character deletion / replacement of small documents: Python rejects => Zn raises an exception a 拦截 catches, Python accepts => same value. distinct_nontrivial = distinct (family, value shape signature, outcome)"
+	c.rule = "(1) generate: random nested dictionaries (texts over quotes, backslashes, control characters, astral code points; doubles incl. -0, subnormals, 2^53+1, 1.8e308; booleans, 空, empty lists/dicts) enter as input variables; the text of 生成JSON is parsed by Python json.loads (strict constants) and compared structurally; non-finite numbers must give a catchable exception, and so must objects / types / methods / exceptions anywhere in the structure (never null); (2) parse: documents produced by Python json.dumps (random separators, indent, ensure_ascii) must parse to the generator's value with keys in document order; (3) in-language round trip (解析JSON：（生成JSON：D）) 为 D; (6) values nested up to 15000 deep built by a Zn program: generation then parsing gives the value back, or generation refuses; (5) documents nested 100 … 200000 deep (thorough: up to 6 million) as objects / arrays / both / unclosed: parsed or refused with an exception, never a dead process; (4) every single-character deletion / replacement of small documents: Python rejects => Zn raises an exception a 拦截 catches, Python accepts => same value. distinct_nontrivial = distinct (family, value shape signature, outcome)"
 	c.assumptions = []string{"Python 3 json module is the reference parser/encoder", "documents whose Python value contains inf (overflowing literals), lone surrogates, integers beyond 2^53, or whose top level is not an object are not judged"}
 	py, err := startPyOracle(c.Root)
 	if err != nil {
@@ -240,6 +240,42 @@ func checkC19(c *Ctx) {
 			c.Count("deep_documents_checked", 1)
 			if resp.Kind != "value" || resp.Val == nil || resp.Val.T != "text" || (resp.Val.S() != "parsed" && resp.Val.S() != c19Caught) || (strings.HasPrefix(ddesc[i], "unclosed") && resp.Val.S() != c19Caught) {
 				c.Violation("deep:"+ddesc[i], fmt.Sprintf("解析JSON of a document (%s): outcome %s %s %s", ddesc[i], resp.Kind, clip(resp.Outcome(), 100), clip(resp.Stderr, 300)), map[string]interface{}{"case": ddesc[i]})
+			}
+		})
+	}
+	// deep values built inside the language: whatever 生成JSON accepts, 解析JSON must read back
+	// (a depth one of them refuses must be refused by the other too)
+	{
+		depthsV := []int{10, 5000, 9990, 9999, 10000, 10001, 12000, 15000}
+		vreqs := []Req{}
+		for _, d := range depthsV {
+			for _, kind := range []string{"list", "dict"} {
+				wrap := "【物】"
+				if kind == "dict" {
+					wrap = "【“k” = 物】"
+				}
+				src := "导入《@JSON》\n如何包？\n\t输入物、次\n\t如果 次 <= 0：\n\t\t输出 物\n\t输出（包：" + wrap + "、次 - 1）\n" +
+					"如何生成？\n\t输入值\n\t输出（生成JSON：值）\n\n\t拦截异常：\n\t\t输出 空\n" +
+					"如何解析？\n\t输入字\n\t输出（解析JSON：字）\n\n\t拦截异常：\n\t\t输出 空\n" +
+					fmt.Sprintf("令典 = 【“a” = （包：1、%d）】\n令文 = （生成：典）\n如果 文 为 空：\n\t输出 “generation-refused”\n令回 = （解析：文）\n如果 回 为 空：\n\t输出 “parse-refused”\n输出 回 为 典\n", d)
+				r := execReq(src)
+				r.Libs = true
+				r.EvalBudget = 0
+				vreqs = append(vreqs, r)
+			}
+		}
+		c.runBatches(vreqs, 2, func(i int, req *Req, resp *Resp) {
+			c.Eval()
+			d := depthsV[i/2]
+			c.Count("deep_values_round_tripped", 1)
+			out := resp.Kind
+			if resp.Kind == "value" && resp.Val != nil {
+				out = resp.Val.String()
+			}
+			c.Nontrivial(fmt.Sprintf("deep-value|%d|%s", d, out))
+			ok := resp.Kind == "value" && resp.Val != nil && ((resp.Val.T == "bool" && resp.Val.B) || (resp.Val.T == "text" && resp.Val.S() == "generation-refused"))
+			if !ok {
+				c.Violation(fmt.Sprintf("deep-value:%d:%d", d, i%2), fmt.Sprintf("a dictionary holding a value nested %d deep: 生成JSON then 解析JSON -> %s %s (the text one of them produces must be read back by the other, or generation must refuse it)", d, resp.Kind, clip(resp.Outcome(), 120)), map[string]interface{}{"req": req})
 			}
 		})
 	}
